@@ -201,6 +201,33 @@ Theorem copy_old_dirs_static :
 Proof. exact copy_old_dirs_static_proof. Qed.
 Print Assumptions copy_old_dirs_static.
 
+(* Overlapping roots, the case that closes.  dstRoot may lie BELOW srcRoot (srcRoot is not inside
+   dstRoot); the source argument is a single name y (no wildcards, FollowLinks off) that names a
+   directory st of srcRoot, and st and dstRoot are disjoint (neither at or below the other) — "copy
+   the sibling directory y into the directory dstRoot of the same tree".  Then every inode the
+   copier's source-path calls name is st, a directory below it or an entry of one, in the initial
+   file system: the walk stays in the part of the source tree that the copy cannot change.
+   The FULL statement, not proved (props/C14.json, unproved_statements):
+     forall roots with srcRoot = dstRoot, dstRoot below srcRoot or srcRoot below dstRoot, every source
+     argument / FollowLinks / wildcard match list:
+       forall i, In i (s_reads s') -> (i < f_next f0)%N -> src_reach f0 sr i
+   It needs the dynamic invariant "no prefix of a pending source path (the directories on the
+   recursion stack and the entry being copied) becomes a symlink" through every destination operation;
+   the statement is evaluated as an oracle on every run of kind 1404 (class copyfs-overlapping-roots). *)
+Theorem copy_reads_inside_overlap_partial :
+  forall fuel c o osl scs y dcs dst f0 dr sr st s' res,
+    fs_wf f0 ->
+    forallb name_ok dcs = true -> chain f0 (c_root c) dcs dr -> (length dcs < rfuel)%nat ->
+    forallb name_ok scs = true -> chain f0 (c_root c) scs sr -> (length scs + 1 < rfuel)%nat ->
+    ~ inside_dir f0 dr sr ->
+    name_ok y = true -> blookup y (dents f0 sr) = Some st -> is_dir f0 st = true ->
+    ~ inside_dir f0 dr st -> ~ inside_dir f0 st dr ->
+    o_follow o = false ->
+    copy_top fuel c o osl (render scs) y (render dcs) dst None (cst_init f0) = (s', res) ->
+    forall i, In i (s_reads s') -> src_reach f0 st i.
+Proof. exact copy_reads_inside_overlap_partial_proof. Qed.
+Print Assumptions copy_reads_inside_overlap_partial.
+
 (* A symlink met at a target name "<dstRoot>/cs/x" (cs real directories) is never traversed:
    ensureEmptyFileTarget (non-directory source) unlinks it — the name is gone, the link inode and
    whatever it points to untouched — and copyDirectoryOnly (directory source) reports the conflict
